@@ -28,6 +28,10 @@ def check(rec, obs, logdelta, value=None):
     if rec["k"] == "eval" and value != rec["value"]:
         return [("wrong-value", "%s returned %r, the definitions and assigned values give %r"
                  % (rec["ln"], value, rec["value"]))]
+    if mode == "reset":             # Model.clear_all(): nothing is held any more
+        if obs["held"] or obs["items"] or obs["inputs"]:
+            bad.append(("clear-all-leaves-values", "Model.clear_all() left %r" % (obs,)))
+        return bad
     if mode == "xchange":           # a reference change: assigned values stay, computed values of S are gone
         for lab, val in rec["inputs"].items():
             if lab not in obs["held"] or obs["held"][lab] != val:
